@@ -89,7 +89,7 @@ class Grounding(Harness):
                 out.append(Failure(clause="grounded effect groups == lifted groups under the substitution; nothing added or omitted",
                                    expected=sorted(want_groups), observed=sorted(got_groups), input=info))
             # typed form: the action's parameter types (constants their own)
-            ptype = {"?x": "a", "?y": "b", "k": "a"}
+            ptype = {"?x": "a", "?y": "b", "k": "a", "k2": "b"}
             bad = []
 
             def check_typed(gp, lp_args):
@@ -105,6 +105,17 @@ class Grounding(Harness):
                         key = (gp.name, tuple(gp.object_mapping[k] for k in gp.signature), gp.is_positive)
                         if key in lifted_lits:
                             check_typed(gp, lifted_lits[key])
+            # precondition literals of the root conjunction
+            from pddl_plus_parser.models import GroundedPredicate, Predicate
+            lifted_pre = {}
+            for p in act.preconditions.root.operands:
+                if isinstance(p, Predicate):
+                    lifted_pre[(p.name, tuple(sigma.get(a, a) for a in p.signature), p.is_positive)] = tuple(p.signature)
+            for gp in op.grounded_preconditions._grounded_precondition.root.operands:
+                if isinstance(gp, GroundedPredicate):
+                    key = (gp.name, tuple(gp.object_mapping[k] for k in gp.signature), gp.is_positive)
+                    if key in lifted_pre:
+                        check_typed(gp, lifted_pre[key])
             if bad:
                 out.append(Failure(clause="typed grounded literal: each argument carries its parameter's type in the action, a constant its own type",
                                    expected="action parameter types", observed=bad[:3], input=info))
